@@ -14,8 +14,10 @@ import sys
 import traceback
 
 FIXED_POINT = ("fix_paragraphs", "fix_nesting", "remove_breaking_returns")
-CALL_CAP = 4_000_000          # deterministic cap per pass: CALL_CAP + CALL_CAP_PER_NODE * nodes profiled calls
-CALL_CAP_PER_NODE = 40_000    # (normal: < 100 calls per node; fix_nesting's deepcopies reach 2*10^4 per node)
+CALL_CAP = 20_000_000         # deterministic cap per pass: CALL_CAP + CALL_CAP_PER_NODE * nodes profiled calls
+CALL_CAP_PER_NODE = 100_000   # (normal: < 100 calls per node; fix_nesting's deepcopies: 2*10^4 per node, 1.9*10^6 in all, observed maxima over 23 000 documents)
+_TRIPPED = set()              # passes that exceeded the budget in this process: later documents use a
+                              # 200x smaller cap for THAT pass only (same violation key; keeps a failing run short)
 WATCHDOG_S = 180              # hang detector only (normal: < 2 s per pass); verdicts come from the call budget
 
 
@@ -218,7 +220,10 @@ def record(raw, lang="en", title="Verif", doc_id=0, lossless=False):
     tc = TreeCleaner(tree, save_reports=True)
     for name in TreeCleaner.cleaner_methods:
         nrep = len(tc.get_reports())
-        status, errkey, calls = run_pass(tc, name, tree, cap=CALL_CAP + CALL_CAP_PER_NODE * prev["n"])
+        cap = CALL_CAP + CALL_CAP_PER_NODE * prev["n"]
+        status, errkey, calls = run_pass(tc, name, tree, cap=cap // 200 if name in _TRIPPED else cap)
+        if status == "budget":
+            _TRIPPED.add(name)
         stable, why = True, ""
         if name in FIXED_POINT and status == "ok":
             stable, why = is_stable(name, tree)
